@@ -12,7 +12,9 @@ TabOf(r) == IF "table" \in DOMAIN r THEN r.table ELSE T0
 EvalOk(T, d, n, e) ==
   LET should == IF e.mode = "relaxed" THEN e.len >= n ELSE e.len = n IN
   IF should THEN e.outcome = "ok" /\ Same(T, e.den, d.den) ELSE e.outcome = "err"
-FormVerdict(T, d, vs, f) ==
+\* a form may list additional variables that do not occur (field ghost): the list is the sorted union
+FormVerdict(T, d, vs0, f) ==
+  LET vs == IF "ghost" \in DOMAIN f THEN SortNames(Range(vs0) \cup Range(f.ghost)) ELSE vs0 IN
   IF f.outcome # "ok" THEN "bad:outcome-" \o f.outcome
   ELSE IF f.vars # vs THEN "bad:variable-list"
   ELSE IF \E k \in 1..Len(f.evals) : f.evals[k].outcome = "panic" THEN "bad:panic-on-slice-length"
